@@ -92,6 +92,9 @@ class SchemaBuilder:
         else:
             ns = ""
         short = d.choice(SHORTS)
+        if self.table and self.f.namespaces and d.p(0.3):
+            # deliberately re-use a short name that already exists in another namespace
+            short = M.split_full(d.choice(list(self.table)))[1]
         full = ns + "." + short if ns else short
         while full in self.table or short in M.PRIMS:
             self.counter += 1
@@ -294,6 +297,12 @@ class Renderer:
     def render(self, node, ns=""):
         d, f = self.d, self.f
         k = node["k"]
+        if k in M.PRIMS and "logical" in node:
+            out = {"type": k, "logicalType": node["logical"]["type"]}
+            for key in ("precision", "scale"):
+                if key in node["logical"]:
+                    out[key] = node["logical"][key]
+            return self.decorate(out)
         if k in M.PRIMS:
             dict_ok = (k != "null") or f.dict_null
             if dict_ok and d.p(f.dict_prims):
@@ -339,6 +348,11 @@ class Renderer:
             out["name"] = short
         if k == "fixed":
             out["size"] = node["size"]
+            if "logical" in node:
+                out["logicalType"] = node["logical"]["type"]
+                for key in ("precision", "scale"):
+                    if key in node["logical"]:
+                        out[key] = node["logical"][key]
         elif k == "enum":
             out["symbols"] = list(node["symbols"])
             if "default" in node:
@@ -356,6 +370,9 @@ class Renderer:
                         fo["doc"] = "field doc"
                     if d.p(0.15):
                         fo["order"] = d.choice(["ascending", "descending", "ignore"])
+                    if getattr(f, "shuffle_keys", False) and d.p(0.5):
+                        keys = list(fo)[::-1]
+                        fo = {k: fo[k] for k in keys}
                 fields.append(fo)
             out["fields"] = fields
         if node.get("aliases"):
@@ -382,6 +399,13 @@ class Renderer:
                 out["doc"] = "some doc é"
             if d.p(0.15):
                 out["x-custom"] = d.choice([1, "s", [1, 2], {"k": None}])
+            if getattr(f, "shuffle_keys", False) and d.p(0.5):
+                keys = list(out)
+                r = d.i(len(keys))
+                keys = keys[r:] + keys[:r]
+                if d.p(0.5):
+                    keys.reverse()
+                out = {k: out[k] for k in keys}
         return out
 
 
@@ -653,6 +677,10 @@ def schema_labels(node, table, labels=None, depth=0, seen=None):
             schema_labels(b, table, labels, depth + 1, seen)
     if k in M.NAMED and "." in node["name"]:
         labels.add("s:namespaced")
+    if depth == 0:
+        shorts = [M.split_full(n)[1] for n in table]
+        if len(shorts) != len(set(shorts)):
+            labels.add("s:short-name-clash")
     return labels
 
 
@@ -702,3 +730,53 @@ def data_labels(d, labels=None, depth=0):
         for v in d:
             data_labels(v, labels, depth + 1)
     return labels
+
+
+# ----------------------------------------------------------------------------- cosmetic variants
+import copy as _copy
+
+_LOGICAL_FOR = {
+    "int": [{"type": "date"}, {"type": "time-millis"}],
+    "long": [{"type": "timestamp-millis"}, {"type": "timestamp-micros"}, {"type": "time-micros"}, {"type": "local-timestamp-millis"}],
+    "string": [{"type": "uuid"}],
+    "bytes": [{"type": "decimal", "precision": 5, "scale": 2}],
+}
+
+
+def cosmetic_variant(d, ir, table):
+    """Deep copy of the IR with edits confined to aliases, defaults and logical
+    annotations (the renderer adds doc / order / custom attributes / key order /
+    name spelling).  Returns (ir2, table2)."""
+    ir2 = _copy.deepcopy(ir)
+    table2 = {}
+
+    def visit(node, in_default_ok=True):
+        k = node["k"]
+        if k in M.NAMED:
+            table2[node["name"]] = node
+            if d.p(0.3):
+                tns, short = M.split_full(node["name"])
+                node["aliases"] = [(tns + ".Old" + short) if tns and d.p(0.5) else "other.Old" + short]
+            elif node.get("aliases"):
+                node["aliases"] = []
+        if k == "record":
+            for fl in node["fields"]:
+                if "default" in fl and d.p(0.5):
+                    del fl["default"]
+                if d.p(0.2):
+                    fl["aliases"] = ["old_" + fl["name"]]
+                visit(fl["type"])
+        elif k == "array":
+            visit(node["items"])
+        elif k == "map":
+            visit(node["values"])
+        elif k == "union":
+            for b in node["branches"]:
+                visit(b)
+        elif k in _LOGICAL_FOR and d.p(0.25):
+            node["logical"] = dict(d.choice(_LOGICAL_FOR[k]))
+        elif k == "fixed" and node["size"] >= 2 and d.p(0.25):
+            node["logical"] = {"type": "decimal", "precision": 3, "scale": 1}
+
+    visit(ir2)
+    return ir2, table2
